@@ -264,6 +264,7 @@ func newEvent(msg, syscall *auparse.AuditMessage) *Event {
 		event.Warnings = append(event.Warnings, err)
 		return event
 	}
+	data = copyData(data)
 
 	if result, found := data["result"]; found {
 		event.Result = result
@@ -299,6 +300,16 @@ func newEvent(msg, syscall *auparse.AuditMessage) *Event {
 	}
 
 	return event
+}
+
+// copyData returns a copy of a message's data so that the message's cached map
+// is never modified.
+func copyData(data map[string]string) map[string]string {
+	out := make(map[string]string, len(data))
+	for k, v := range data {
+		out[k] = v
+	}
+	return out
 }
 
 func addSubjectAttribute(key, value string, event *Event) {
@@ -400,6 +411,8 @@ func addExecveRecord(execve *auparse.AuditMessage, event *Event) {
 			"failed to parse EXECVE message: %w", err))
 		return
 	}
+
+	data = copyData(data)
 
 	argc, found := data["argc"]
 	if !found {
